@@ -98,6 +98,39 @@ def judge(items, accept, exp_type, exp_v, nonint, also_hex=True):
     return None
 
 
+_RT = None
+
+
+def rtmidi_input():
+    """An Input port of mido.backends.rtmidi on top of a stand-in rtmidi module
+    (one per process)."""
+    global _RT
+    if _RT is None:
+        from .. import fakertmidi
+        backend, saved = fakertmidi.install()
+        _RT = backend.Input('Fake Port 0')
+    return _RT
+
+
+def judge_device(items, accept, exp_type, exp_v):
+    """The same verdict at the device entry point: bytes delivered by the
+    rtmidi callback become exactly one message, or are dropped silently."""
+    inp = rtmidi_input()
+    try:
+        inp._rt.deliver(items)
+    except Exception as e:
+        return 'device-callback-raises/%s' % type(e).__name__, 'callback raised %r for %r' % (e, items)
+    got = list(inp.iter_pending())
+    if not accept:
+        if got:
+            return 'device-accepts-invalid', 'device data %r was delivered as %s' % (items, core.srepr(got))
+        return None
+    exp = attrs_of(exp_type, exp_v)
+    if len(got) != 1 or got[0].type != exp_type or list(got[0].bytes()) != list(items):
+        return 'device-rejects-valid', 'device data %r was delivered as %s' % (items, core.srepr(got))
+    return None
+
+
 def classify(bs):
     if not bs:
         return 'empty'
@@ -123,6 +156,8 @@ def worker(lines):
             exp_type, exp_v = TYPES[tidx - 1], ints[4 + n:4 + n + nv]
         items, nonint = concretize(bs, sum(bs))
         r = judge(items, bool(accept), exp_type, exp_v, nonint)
+        if r is None and all(type(x) is int and 0 <= x <= 255 for x in items):
+            r = judge_device(items, bool(accept), exp_type, exp_v)
         out['n'] += 1
         out['counts']['accepted' if accept else 'rejected'] = \
             out['counts'].get('accepted' if accept else 'rejected', 0) + 1
